@@ -22,6 +22,7 @@ structure Reg where
   total : Int
   cron : Option Nat
   cancel : Option Nat      -- time at which the registration stopped being current
+  dead : Bool              -- made on a closed scheduler: never fires
   deriving Repr
 
 /-- number of due times `base + after + k * interval` (`k = 0, 1, …`) that are `≤ T` -/
@@ -30,6 +31,7 @@ def dueCount (base after interval T : Nat) : Nat :=
 
 /-- firings of a registration up to time `T` -/
 def Reg.count (r : Reg) (T : Nat) : Nat :=
+  if r.dead then 0 else
   let T' := match r.cancel with | some c => min c T | none => T
   match r.cron with
   | some p => T' / p - r.base / p
@@ -53,17 +55,18 @@ def cancelIf (now : Nat) (p : Reg → Bool) (rs : List Reg) : List Reg :=
 def cancelName (s : State) (n : Nat) : State := { s with regs := cancelIf s.now (fun r => r.name = n) s.regs }
 def cancelAll (s : State) : State := { s with regs := cancelIf s.now (fun _ => true) s.regs }
 
-/-- a registration on a closed scheduler never fires: it is born cancelled -/
+/-- a closed scheduler ignores registrations (`if s.closed { return }`) -/
 def register (s : State) (n : Nat) (after interval : Int) (cron : Option Nat) (times : Int) : State :=
+  if s.stopped then s else
   let s1 := cancelName s n
   let r : Reg := { name := n, base := s.now,
                    after := (match cron with | none => clampMs s.tick after | some _ => 0),
                    interval := (match cron with | none => clampMs s.tick interval | some _ => 0),
-                   total := times, cron := cron, cancel := none }
+                   total := times, cron := cron, cancel := none, dead := false }
   { s1 with regs := s1.regs ++ [r] }
 
 def counts (s : State) : List Nat :=
-  s.regs.map (fun r => if s.stopped && r.cancel.isNone then 0 else r.count s.now)
+  s.regs.map (fun r => r.count s.now)
 
 def registered (s : State) : List Nat := (s.regs.filter (fun r => r.cancel.isNone)).map (·.name)
 
